@@ -4,6 +4,7 @@ package main
 // messages; case = (c03 (msg...) flat-table svg-table (lines (l #..)...)|panic)
 
 import (
+	"fmt"
 	"math"
 	"sort"
 
@@ -543,7 +544,9 @@ func genC03(tier string, rng *Rng) {
 
 	// (4) SysStat float sweeps: rounding boundaries of %.1f in [-200,200] with both neighbours,
 	//     %.2f boundaries in [-20,20], and a stride over all bit patterns
-	nb := func(f float32, d int) float32 { return math.Float32frombits(uint32(int64(math.Float32bits(f)) + int64(d))) }
+	nb := func(f float32, d int) float32 {
+		return math.Float32frombits(uint32(int64(math.Float32bits(f)) + int64(d)))
+	}
 	for t := -2000; t <= 2000; t++ {
 		f := float32((float64(t) + 0.5) / 10)
 		g := float32((float64(t) + 0.5) / 100)
@@ -586,6 +589,40 @@ func genC03(tier string, rng *Rng) {
 			ms = append(ms, randMsg(rng, []int{10, 25, 50, 90}[rng.Intn(4)]))
 		}
 		emitC03("composite", ms)
+	}
+
+	// (7b) HISTORIES of calls: one message object encoded, one of its fields edited IN PLACE, encoded again;
+	// fresh messages that agree with the previous one in all but one field (seeds C03-9 / C07-9: lines
+	// cached by object identity or by part of the content).  Every call is an ordinary case.
+	for i := 0; i < 150*scale; i++ {
+		m := randMsg(rng, 60)
+		if m.PanelTopology == nil || i%2 == 0 {
+			m.PanelTopology = &rwp.PanelTopology{Svgbase: "<svg><g id=\"a\"/></svg>", Json: "{\"HWc\":[{\"id\":1}]}"}
+		}
+		if m.PanelInfo == nil {
+			m.PanelInfo = &rwp.PanelInfo{Model: "M1", Serial: "S1", Name: "N1"}
+		}
+		one("history-first", m)
+		for k := 0; k < 3; k++ {
+			switch (i + k) % 6 {
+			case 0:
+				m.PanelTopology.Json = fmt.Sprintf("{\"HWc\":[{\"id\":%d}]}", 10*i+k)
+			case 1:
+				m.PanelTopology.Svgbase = fmt.Sprintf("<svg><g id=\"b%d\"/></svg>", k)
+			case 2:
+				m.PanelInfo.Model = fmt.Sprintf("M%d", 10*i+k)
+			case 3:
+				m.PanelInfo.Serial, m.PanelInfo.Name = fmt.Sprintf("S%d", k), fmt.Sprintf("N%d", i)
+			case 4:
+				m.Events = append(m.Events, &rwp.HWCEvent{HWCID: uint32(40 + k), Pulsed: &rwp.PulsedEvent{Value: int32(k - 1)}})
+			default:
+				m.Registers = append(m.Registers, &rwp.Register{Reg: rwp.Register_RegisterE(k % 4), Id: "A", Value: uint32(i)})
+			}
+			one("history-edited-in-place", m)
+			c := proto.Clone(m).(*rwp.OutboundMessage)
+			c.PanelTopology.Json += " "
+			one("history-fresh-near-copy", c)
+		}
 	}
 
 	// (8) outside the representable domain (correspondence only)
